@@ -45,7 +45,7 @@ pub fn check(rep: &Report) {
         if model.fates.values().any(|f| matches!(f, ModelFate::Blocked)) { rep.count("scenarios_with_blocked_bystander", 1); }
         if model.fates.values().any(|f| matches!(f, ModelFate::Done(_))) { rep.count("scenarios_with_unaffected_process", 1); }
         for n in &sc.nodes { for a in &n.body { if let Action::Fail(k) = a { rep.count(&format!("fail_kind={:?}", k), 1); } } }
-        if i < 2 { rep.sample(json!({"scenario_source": src, "model_fates": model.fates.iter().map(|(n, f)| (names[n].clone(), format!("{:?}", f).chars().take(80).collect::<String>())).collect::<BTreeMap<_, _>>()})); }
+        if rep.want_sample() { rep.sample(json!({"scenario_source": src, "model_fates": model.fates.iter().map(|(n, f)| (names[n].clone(), format!("{:?}", f).chars().take(80).collect::<String>())).collect::<BTreeMap<_, _>>()})); }
         let scheds = sched_variants(&mut rng, n_sched);
         for cfg in &scheds {
             let obs = run_once(&bc, &b, cfg, 200_000);
